@@ -110,6 +110,17 @@ class Fault:
                 raise InjectedFault("injected failure at invocation %d" % self.at)
 
 
+def _c19_faulty_gate(input_data):
+    """stands in for oqupy.backends.pt_tebd_backend.apply_nn_gate in one layer: the gate at
+    site 0 fails at once, every later gate of the layer is still busy for a while"""
+    import time
+    import oqupy.backends.pt_tebd_backend as B
+    if input_data[0] == 0:
+        raise InjectedFault("injected failure in the gate at site 0")
+    time.sleep(0.3)
+    return B._apply_nn_gate(*input_data)
+
+
 def c19_runners():
     """name -> (table functions exercised, build) ; build() -> (faults, call(progress_type)).
     Every run is tiny (2-level system, <= 4 steps)."""
@@ -344,7 +355,7 @@ def c19_runners():
         # the documented backend option {'parallel': ...}: one executor pool per gate layer;
         # fault "pool-submit" is ticked by the harness' logging executor at every submit()
         def build():
-            f = {"process_tensor": Fault(), "pool-submit": Fault()}
+            f = {"process_tensor": Fault(), "pool-submit": Fault(), "gate-task": Fault()}
 
             class FaultyPT(oqupy.SimpleProcessTensor):
                 def get_mpo_tensor(self, step, transformed=True):
@@ -367,12 +378,24 @@ def c19_runners():
                                 dynamics_sites=[0], backend_config={"parallel": mode})
 
             def call(progress_type):
+                import oqupy.backends.pt_tebd_backend as B
+                v = f["gate-task"]
+                if v.armed and v.at is None:
+                    v.calls += 1          # one fault point: the first parallel layer
+                if v.armed and v.at is not None:
+                    # an earlier gate of a layer fails while a later one is still running
+                    saved = B.apply_nn_gate
+                    B.apply_nn_gate = _c19_faulty_gate
+                    try:
+                        return tebd.compute(end_step=2, progress_type=progress_type)
+                    finally:
+                        B.apply_nn_gate = saved
                 return tebd.compute(end_step=2, progress_type=progress_type)
             call.keep = tebd      # the caller keeps the object, as a user would
             return f, call
         return build
     runners["PtTebd.compute/multithread"] = (["PtTebd.compute"], tebd_par_build("multithread", 4))
-    mp = tebd_par_build("multiprocess", 3)
+    mp = tebd_par_build("multiprocess", 4)
     mp.light = True             # process pools are slow to start: few runs in the quick tier
     runners["PtTebd.compute/multiprocess"] = (["PtTebd.compute"], mp)
     return runners
